@@ -41,8 +41,9 @@ theorem cmdOK_initInsert (large : Bool) (l : Nat) (hl : l ≤ 2 ^ 24) :
 
 /-- the per-command obligation for copies: with the ring buffer holding the text, a sound copy
 becomes a command the decoder executes, and the command is `cmdOK` -/
-theorem emitHyp_copy (C : Ctx) (p : Params) (large : Bool) (hnp : p.npostfix = 0) (hnd : p.ndirect = 0)
-    (hv : RingView C.data C.k (C.hist ++ C.mb) C.lo (C.hist.length + C.mb.length))
+theorem emitHyp_copy (C : Ctx) (p : Params) (large : Bool) (hnp : p.npostfix = 0) (hnd : p.ndirect = 0) (tail : Nat)
+    (hv : RingView C.data C.k tail (C.hist ++ C.mb) C.lo (C.hist.length + C.mb.length))
+    (htail : tail ≤ 2 ^ C.k) (hmt : C.mb.length ≤ tail)
     (hlo : C.lo ≤ C.hist.length - maxBackwardLimit p)
     (hwin : maxBackwardLimit p + 15 < 2 ^ 31) (hstd : large = false → maxBackwardLimit p ≤ 2 ^ 26 - 4)
     (hmb : C.mb.length ≤ 2 ^ 24) :
@@ -57,7 +58,7 @@ theorem emitHyp_copy (C : Ctx) (p : Params) (large : Bool) (hnp : p.npostfix = 0
     have hcur : d.cursor + ins + sr.len ≤ C.mb.length := by omega
     have hdw : sr.distance ≤ maxBackwardLimit p := Nat.le_trans h2 (Nat.min_le_right _ _)
     obtain ⟨cmd, cache', he, hds, _, hci, hcl'⟩ := emit_copy C.w p.npostfix p.ndirect (maxBackwardLimit p)
-      (by omega) (by omega) C.data C.k C.hist C.mb C.lo hv d hout (by omega) pos ins hpos sr c0 c1 c2 c3 rest
+      (by omega) (by omega) C.data C.k tail C.hist C.mb C.lo hv htail hmt d hout (by omega) pos ins hpos sr c0 c1 c2 c3 rest
       (by simpa using hring) hc (by omega) (by omega) hcur (by omega) h4 h1 h2 (by omega) (by omega) h6
     -- the command is `commandInit` on the computed distance code
     obtain ⟨code, hcode, hcle, _, _⟩ := computeDistanceCode_sound p.npostfix p.ndirect sr.distance
